@@ -81,7 +81,7 @@ func vpProject(names []string, srcs [][]byte) (*AllProject, []*results.FileStruc
 	p.rebuidCreateTypeMap()
 	p.checkAllAnnotate()
 	p.checkAllAnnotateEnum()
-	if vpOpenAll {
+	if vpOpenAll || verifParamOr("EDITED", 0) == 1 {
 		// after an edit: didChange re-analyses
 		// the text in real-time mode and keeps that analysis in the cache the position-based requests use (didOpen alone does not)
 		for i := range names {
